@@ -154,6 +154,7 @@ class CheckRun:
         self.assumptions = []
         self.selftest = None
         self.extra = {}
+        self.ext_obligations = []  # [{name,status,backend,ms,vc,witness?,detail?}] discharged outside pyvc
 
     # ------------------------------------------------------------------ P tier
     def contracts(self, modnames):
@@ -230,6 +231,21 @@ class CheckRun:
                     self.violations.append((str(_rel(path)), suffix, oname))
                 else:
                     self.undecided.append(f"{oname}: {r.status} {r.detail[:200]}")
+        for ob in self.ext_obligations:
+            obligations += 1
+            solver_ms += ob.get("ms", 0.0)
+            if ob["status"] == "proved":
+                discharged += 1
+                backends[ob["backend"]] = backends.get(ob["backend"], 0) + 1
+                if len(samples) < 8:
+                    samples.append({"obligation": ob["name"], "status": "proved", "backend": ob["backend"], "ms": round(ob["ms"], 1), "vc": ob.get("vc", "")})
+            elif ob["status"] == "violated":
+                path = REPLAYS / self.prop / (_safe(ob["name"]) + ".json")
+                path.write_text(json.dumps({"property": self.prop, "kind": "P(library)", **ob,
+                                            "how": f"./check {self.prop} --replay {_rel(path)}"}, indent=1, default=str))
+                self.violations.append((str(_rel(path)), "", ob["name"]))
+            else:
+                self.undecided.append(f"{ob['name']}: {ob.get('detail', 'undecided')}")
         for fid, obls in known_hit_ids.items():
             e = self.known.get(fid, {})
             self.known_lines.append(f"KNOWN-FINDING: property={self.prop} {fid}: {e.get('what', '')} [{len(obls)} obligation(s)]")
